@@ -13,8 +13,8 @@ CHECKS = {
              text="Bounded-exhaustive: all call sequences to depth 7 over the full alphabet for a grid of small configurations on the real object; TLC evaluates every C09 clause (legal atomic phase changes from the callback stream, Hayflick monitor, absorbing states, every call returns) on every edge; the spec itself is model-checked against the same clauses.",
              note="Trusted: TLC/SANY, adapter projection via get_phase/get_status/get_statistics/get_age (dedup-audited), virtual clock and lock substitution by module namespace. A self-deadlock is observed through the owner-aware lock, not by waiting. reset() starts a new incarnation; renew(0) outside the alphabet.",
              ref="DESIGN.md section 4 C09"),
- "C13": dict(technique="TLA+ spec (Lysosome.tla) model-checked with TLC; real Lysosome explored by BFS under a virtual clock and owner-aware locks, every edge judged by TLC (Trace_Lysosome.tla); TLC -simulate behaviours replayed",
-             text="Bounded-exhaustive over small configurations (queue size, auto-digest threshold, retention) and all call sequences to depth 7 (quick) / 10 (thorough) incl. raising digesters and sensitive items: TLC evaluates hang-freedom, boundedness, per-item accounting (each item handled at most once, counts add up), toxic-callback and recycling clauses on every recorded edge.",
+ "C13": dict(technique="TLA+ spec (Lysosome.tla) model-checked with TLC; real Lysosome explored by BFS under a virtual clock and owner-aware locks, every edge judged by TLC (Trace_Lysosome.tla); TLC -simulate behaviours replayed; two-thread programs under the line scheduler judged by TLC (Trace_LysoConc.tla)",
+             text="Bounded-exhaustive over small configurations (queue size, auto-digest threshold, retention) and all call sequences to depth 7 (quick) / 10 (thorough) incl. raising digesters and sensitive items: TLC evaluates hang-freedom, boundedness, per-item accounting (each item handled at most once, counts add up), toxic-callback and recycling clauses on every recorded edge; the same clauses are evaluated on every distinct history of two real threads (1-3 operations each) scheduled at source-line granularity up to a preemption bound.",
              note="Trusted: TLC/SANY; digester invocations are observed by wrapping the instance's digester table (logging only), the queue content is inferred FIFO and tied to the public sizes by the count clauses; clock and locks substituted by module namespace. max_queue_size >= 2 as in the statement.",
              ref="DESIGN.md section 4 C13"),
  "C14": dict(technique="TLA+ specs (Execute.tla step machine with fault plans; Coordination.tla) model-checked with TLC; every fault plan run on the real CoordinationSystem and judged by TLC (Trace_Execute.tla); controller-level exploration tree judged on the exit-path clauses (Trace_Coordination.tla)",
